@@ -246,7 +246,7 @@ def run(tier="quick", seed=0, replay=None):
         print(open(replay).read())
         return 1
     core.lean_stage(chk, "C06")
-    core.soft_bridge(chk, props=("GenImputer",))
+    core.soft_bridge(chk, props=("GenImputer", "GenImputerCorollaries"))
     from harness import cover
     from harness import fingerprint
     fingerprint.direct(chk, ['ixai/imputer/marginal_imputer.py', 'ixai/imputer/default_imputer.py', 'ixai/imputer/base.py'])
